@@ -138,10 +138,14 @@ def _run_shard(binp, sub, lines, tag, timeout, env_extra=None):
     start = 0
     aborted = []
     timed_out = False
+    killed = 0
     deadline = time.time() + timeout
+    # a driver process serves a bounded number of jobs: what the interpreters leak (Rc cycles, see KF-C02-cycle) stays in the process
+    per_proc = int(os.environ.get("VERIF_JOBS_PER_PROCESS", "1500") or 1500)
     while start < len(lines):
+        upto = min(len(lines), start + per_proc)
         with open(inp, "w") as f:
-            for l in lines[start:]:
+            for l in lines[start:upto]:
                 f.write(l); f.write("\n")
         env = dict(os.environ); env["RVDRIVE_TMP"] = TMP
         cwd = None
@@ -173,11 +177,20 @@ def _run_shard(binp, sub, lines, tag, timeout, env_extra=None):
         done = start + len(got)
         if timed_out:
             break
+        if p.returncode == -9:
+            # SIGKILL comes from outside (the kernel's out-of-memory killer on a loaded machine), never from the interpreter: run the rest again;
+            # a job that is killed three times is left without a record and makes the run inconclusive
+            killed += 1
+            if killed >= 3:
+                return records, {"aborted": aborted, "timed_out": False, "killed": True}
+            start = done
+            time.sleep(5)
+            continue
         if p.returncode != 0 and got and isinstance(got[-1], dict) and "hang" in got[-1]:
             # the driver's own per-step watchdog fired: the hung job has its record; go on with the rest
             start = done
             continue
-        if p.returncode != 0 and done < len(lines):
+        if p.returncode != 0 and done < upto:
             step = None
             try:
                 step = open(marker).read()
@@ -188,7 +201,9 @@ def _run_shard(binp, sub, lines, tag, timeout, env_extra=None):
             aborted.append(done)
             start = done + 1
             continue
-        break
+        if done < upto:
+            break       # the driver ended normally without answering every job: leave the rest without a record
+        start = upto
     for f in (inp, outp, marker):
         try:
             os.remove(f)
@@ -212,7 +227,7 @@ def run_driver(sub, items, profile="dev", shards=None, timeout=300, tag="run", e
     enc = [json.dumps(x) for x in items]
     idx = [list(range(s, n, shards)) for s in range(shards)]
     out = [None] * n
-    stats = {"aborted": 0, "timed_out": 0}
+    stats = {"aborted": 0, "timed_out": 0, "killed": 0}
 
     def work(s):
         recs, st = _run_shard(binp, sub, [enc[i] for i in idx[s]], "%s-%d" % (tag, s), timeout, env_extra)
@@ -223,6 +238,9 @@ def run_driver(sub, items, profile="dev", shards=None, timeout=300, tag="run", e
                 out[i] = recs[k]
             stats["aborted"] += len(st["aborted"])
             stats["timed_out"] += 1 if st["timed_out"] else 0
+            stats["killed"] += 1 if st.get("killed") else 0
+    if stats["killed"]:
+        raise Inconclusive("%d driver process(es) were killed from outside three times (SIGKILL: out of memory on the machine?)" % stats["killed"])
     if stats["timed_out"]:
         missing = sum(1 for r in out if r is None)
         raise Inconclusive("watchdog: %d shard(s) exceeded %ds wall clock, %d job(s) without a record"
